@@ -183,3 +183,19 @@ MUTANTS["C14"] = [
     ("extent-ymax-from-ymin", [(RT, "            self.ymax = max(self.ymax, ymax)", "            self.ymax = max(self.ymax, ymin)")]),
     ("first-subtree-only", [(RT, "        for subt in self.subtrees:", "        for subt in self.subtrees[:3]:")]),
 ]
+
+SG = "plotink/spatial_grid.py"
+MUTANTS["C13"] = [
+    ("reverse-bin-swapped", [(SG, "                x_bin = min(math.floor((x_2 - self.xmin) / self.bin_size_x), max_bin)\n                y_bin = min(math.floor((y_2 - self.ymin) / self.bin_size_y), max_bin)", "                x_bin = min(math.floor((x_2 - self.xmin) / self.bin_size_y), max_bin)\n                y_bin = min(math.floor((y_2 - self.ymin) / self.bin_size_x), max_bin)")]),
+    ("adjacency-misses-diagonal", [(SG, "                    if y_row < max_bin:\n                        self.adjacents[index_i].append(index_i + self.bins_per_side + 1)\n", "")]),
+    ("remove-forgets-reversed-end", [(SG, "        if self.reverse:\n            other_index = path_index + self.path_count\n            cell_number = self.lookup[other_index]\n            self.grid[cell_number].remove(other_index)", "        if self.reverse and path_index > 0:\n            other_index = path_index + self.path_count\n            cell_number = self.lookup[other_index]\n            self.grid[cell_number].remove(other_index)")]),
+    ("dist-comparison-inverted-in-fallback", [(SG, "                    vertex = self.vertices[path_index][0]\n\n                dist = plot_utils.square_dist(vertex_in, vertex)\n                if dist < best_dist:", "                    vertex = self.vertices[path_index][0]\n\n                dist = plot_utils.square_dist(vertex_in, vertex)\n                if dist > best_dist or best_index is None:")]),
+    ("query-clamp-missing-low", [(SG, "        x_bin = max(min(math.floor((vertex_in[0] - self.xmin) / self.bin_size_x), max_bin), 0)", "        x_bin = min(math.floor((vertex_in[0] - self.xmin) / self.bin_size_x), max_bin)")]),
+    ("query-cell-off-by-one", [(SG, "        last_cell = x_bin + self.bins_per_side * y_bin\n\n        neighborhood_cells", "        last_cell = y_bin + self.bins_per_side * x_bin\n\n        neighborhood_cells")]),
+    ("index0-returns-early-none", [(SG, "        if best_index:\n            return best_index\n", "        if best_index:\n            return best_index\n        best_dist = math.inf\n        best_index = None\n")]),
+    ("reversed-vertex-uses-start", [(SG, "                if path_index >= self.path_count: # new path is reversed\n                    vertex = self.vertices[path_index - self.path_count][1]\n                else:\n                    vertex = self.vertices[path_index][0] # Beginning of next path", "                if path_index >= self.path_count: # new path is reversed\n                    vertex = self.vertices[path_index - self.path_count][0]\n                else:\n                    vertex = self.vertices[path_index][0] # Beginning of next path")]),
+    # "shim not applied to xmax/ymax" is an equivalent mutant (ends on the far border are clamped into the last
+    # cell; the oracle reads the published geometry) and, correctly, raises no alarm.
+    ("lookup-start-not-recorded", [(SG, "            self.lookup[index_i] = grid_index # Which grid cell is the path start in?", "            self.lookup[index_i] = x_bin # Which grid cell is the path start in?")]),
+    ("extent-ignores-ends-when-reverse", [(SG, "            if reverse:\n                self.xmin = min(self.xmin, x_2)\n                xmax = max(xmax, x_2)", "            if reverse:\n                self.xmin = min(self.xmin, x_2)\n                xmax = max(xmax, x_1)")]),
+]
